@@ -12,6 +12,9 @@ def dispatch_replay(chk, rp):
         return RF.replay_file(chk, rp)
     if rp.get("kind") == "shift":
         return SH.replay_file(chk, rp)
+    if rp.get("kind") == "testtrace":
+        from . import testtrace as TT
+        return TT.replay_file(chk, rp)
     if rp.get("kind") == "prov":
         return PV.replay_file(chk, rp)
     raise SystemExit("cannot replay kind %r; re-run the check" % rp.get("kind"))
